@@ -9,16 +9,16 @@ BUILT = set(os.environ.get("VERIF_BUILT", "").split()) or None
 
 P = {
  "C01": dict(level="exploration", tech="reference-model monitor (sorted-slice model) over seeded hostile histories; Go race detector for the concurrent-Put clause",
-   text="Runtime reference-model monitoring: every return value of tree.Map/Set (Put/Delete/Get/Contains/Len/First/Last/Iterate/Range/RangeReverse, through copies of the value too) is compared on the spot with an independent sorted-slice model over thousands of seeded histories from five generators (small-universe churn; ascending/descending/sawtooth/random fills to node-capacity boundaries; six targeted drain orders), eleven key/value/comparator configurations, all 9 bound-kind pairs. The concurrent clause runs writers on disjoint present keys against readers of other keys under the race detector and checks that every Put took effect. Held = no disagreement and no race report on the executions produced.",
+   text="Runtime reference-model monitoring: every return value of tree.Map/Set (Put/Delete/Get/Contains/Len/First/Last/Iterate/Range/RangeReverse, through copies of the value too) is compared on the spot with an independent sorted-slice model over thousands of seeded histories from five generators (small-universe churn; ascending/descending/sawtooth/random fills to node-capacity boundaries; six targeted drain orders), thirteen key/value/comparator configurations (less- and compare-constructed, three-way compares returning arbitrary magnitudes, reversed and coarse orders, struct / string / nil-intolerant pointer keys, one-byte and string values, Map and Set), all 9 bound-kind pairs. The concurrent clause runs writers on disjoint present keys against readers of other keys under the race detector and checks that every Put took effect. Held = no disagreement and no race report on the executions produced.",
    note="Trusted: Go toolchain and race detector; the sorted-slice model (tk/tk.go, ~80 lines, written from the documentation); comparators are strict weak orders. Explored, not exhaustive: histories are sampled, schedules are whatever the runtime plus seeded perturbation produce."),
  "C02": dict(level="exploration", tech="reference-model monitor with per-iterator obligation tracker; comparator-call and CPU budgets for 'never spins'",
-   text="Runtime monitoring of live iterators under mutation: up to four simultaneously live forward/reverse bounded iterators per history; between Next calls the driver mutates keys chosen relative to each iterator's parked position (the parked key itself, neighbours, runs that split/merge/rotate the parked node, drain to empty, refill). An online obligation tracker (must / candidate sets per iterator) decides skipped keys, stale values, non-monotone or out-of-bounds yields, yields after exhaustion; every Next runs under panic capture and a comparator-call budget. The tree hook is used only to count structural events around the parked node.",
+   text="Runtime monitoring of live iterators under mutation: up to four simultaneously live forward/reverse bounded iterators per history; between Next calls the driver mutates keys chosen relative to each iterator's parked position (the parked key itself, neighbours, runs that split/merge/rotate the parked node, drain to empty, refill). An online obligation tracker (must / candidate sets per iterator) decides skipped keys, stale values, non-monotone or out-of-bounds yields, yields after exhaustion; every Next runs under panic capture and a comparator-call budget; configurations include nil-intolerant pointer keys, and a dedicated group makes exactly 2^8 and 2^16 structural modifications between a reseek and the next call. The tree hook is used only to count structural events around the parked node.",
    note="Trusted: the model and the obligation rule (DESIGN.md C02), which was derived from the statement and checked against the cursor design so that legitimately missed insertions (between the last yielded key and the parked key) are not demanded. Sampled histories."),
  "C03": dict(level="exploration", tech="invariant monitor at a build-tagged hook (raw node walk) after every operation + comparator-call counting",
-   text="Runtime invariant monitoring: after every single operation of scripted and random fills/drains the monitor walks the raw nodes (verif hook) and judges occupancy (7..15 keys except the root), equal leaf depth, child/parent links, strict in-order keys, single reachability, key count == Len, the depth bound 1+floor(log8((n+1)/2)), zeroed vacated slots and absence of any token the model does not hold (retained garbage), and counts comparator calls of Get/Contains against 15 per level. Structural events (steal-left/right, merge, cascades, root split/collapse) are classified by diffing consecutive walks and each class has a coverage floor.",
+   text="Runtime invariant monitoring: after every single operation of scripted and random fills/drains the monitor walks the raw nodes (verif hook) and judges occupancy (7..15 keys except the root), equal leaf depth, child/parent links, strict in-order keys, single reachability, key count == Len, the depth bound 1+floor(log8((n+1)/2)), zeroed vacated slots and absence of any token the model does not hold (retained garbage; additionally a reflection-based reachability scan from the Map/Set value finds tokens parked in ANY field, e.g. a recycled spare node), and counts comparator calls of Get/Contains against 15 per level. Structural events (steal-left/right, merge, cascades, root split/collapse) are classified by diffing consecutive walks and each class has a coverage floor.",
    note="Trusted: the hook copies fields faithfully (container/tree/verif_export.go, read-only); the bounds are restated in the monitor, not taken from the code. 'Can be garbage collected' is decided as 'not referenced from any slot of a reachable node' (exact for the live structure), not through finalizers."),
  "C04": dict(level="exploration", tech="reference-model monitor (slice model) + raw-ring invariant at a build-tagged hook; novelty-guided abstract-state cover",
-   text="Runtime reference-model monitoring of deque.Deque: every operation outcome (value or panic) is compared with a slice model, with a full read-back (Len, Front, Back, every Item, periodically Iterate) after every operation; the raw ring (verif hook) must hold zero values outside the live window. Workloads: biased random walks plus a novelty-guided cover of abstract states (capacity, front offset, length, allocated?) for small capacities, applying every operation class from every newly reached state.",
+   text="Runtime reference-model monitoring of deque.Deque: every operation outcome (value or panic) is compared with a slice model, with a full read-back (Len, Front, Back, every Item, periodically Iterate) after every operation; the raw ring (verif hook) must hold zero values outside the live window. Eight element types (pointer, int, string, uint8, struct{}, interface, 608-byte and >4 KiB structs). Workloads: biased random walks plus a novelty-guided cover of abstract states (capacity, front offset, length, allocated?) for small capacities, applying every operation class from every newly reached state.",
    note="Trusted: slice model; hook copies the ring faithfully. Panics are compared as 'panicked or not' (any panic value accepted)."),
  "C05": dict(level="exploration", tech="reference-model monitor (multiset / map model) with full observation after every step",
    text="Runtime reference-model monitoring of xheap.Heap and PriorityQueue: heap elements carry unique ids so the multiset is exact; after every PriorityQueue step the whole mapping is read back (Len, Contains and Priority of every key of the universe, Peek in argmin). Histories mix all operations at all ratios with heavy priority ties, less- and compare-constructed, initial slices with duplicate keys, and targets chosen by heap position class (first / last / leaf / inner).",
@@ -27,46 +27,46 @@ P = {
    text="Runtime reference-model monitoring of xlist.List: after every operation the forward walk (Front/Next) and the backward walk (Back/Prev) are compared by pointer identity with a slice-of-handles model, plus Len, end links, untouched Values and unlinked removed nodes; walks are step-bounded so a cycle is a verdict. For list lengths 1..6 every (node, mark) pair of every operation is enumerated from several permutation states; random histories with Clear and regrowth on top.",
    note="Trusted: the slice model. Nodes dropped by Clear are not required to be unlinked (the statement's 'removed node' is read as Remove)."),
  "C07": dict(level="exploration", tech="reference functions + reference lazy evaluator (pull-count oracle) over complete small scopes and random inputs",
-   text="Runtime monitoring of every iterator/stream/xslices combinator, constructor and reducer against reference functions written from the documentation, on instrumented sources that count pulls: outputs must equal the reference prefix after every Next, pulls must be 0 after construction and never exceed what the minimal lazy strategy needs for the outputs requested so far, the end must stick, and the three flavours must agree. Complete small scope (all sequences over {0,1,2} up to length 6, all predicate masks, all n / chunk sizes, all nestings for Flatten/Join) plus random larger inputs and random pipelines.",
+   text="Runtime monitoring of every iterator/stream/xslices combinator, constructor and reducer against reference functions written from the documentation, on instrumented sources that count pulls: outputs must equal the reference prefix after every Next, pulls must be 0 after construction and never exceed what the minimal lazy strategy needs for the outputs requested so far, the end must stick, and the three flavours must agree. Complete small scope (all sequences over {0,1,2} up to length 6, all predicate masks, all n / chunk sizes, all nestings for Flatten/Join) plus random larger inputs, random pipelines, and 20-30 million item skip stretches (a recursion in place of a loop overflows the stack).",
    note="Trusted: the reference functions and need(j) evaluators (a few lines each). same/eq arguments are equivalence relations."),
  "C08": dict(level="fault_enumeration", tech="fault enumeration (every fault position x kind x combinator) against the fault-free reference; race detector for goroutine-backed combinators",
-   text="Fault enumeration at runtime: for every stream combinator, reducer, parallel.MapStream and pipelines of them, every input length 0..6, every fault position p and kind (fatal source error, callback error at its p-th call, expired per-call context, transient source error followed by recovery, sequences of faults) is injected through instrumented sources and callbacks; outputs before a fatal error must be a prefix of the fault-free output for the first p items and then exactly E; after transient faults the concatenated output must equal the fault-free output. Goroutine-backed combinators are repeated with seeded perturbation under the race detector.",
+   text="Fault enumeration at runtime: for every stream combinator, reducer, parallel.MapStream and pipelines of them, every input length 0..6, every fault position p and kind (fatal source error, callback error at its p-th call, expired per-call context, transient source error followed by recovery, sequences of faults; the injected error VALUE is a sentinel, context.Canceled, a wrapped context.Canceled, context.DeadlineExceeded or a wrapped stream.End) is injected through instrumented sources and callbacks; outputs before a fatal error must be a prefix of the fault-free output for the first p items and then exactly E; after transient faults the concatenated output must equal the fault-free output. Goroutine-backed combinators are repeated with seeded perturbation under the race detector.",
    note="Trusted: fault-free reference functions; probes fail before consuming. Timing of faults relative to the consumer is explored, not enumerated."),
  "C09": dict(level="fault_enumeration", tech="history checker over the probes' own Next/Close log (close-exactly-once, no use after close, no Next||Close overlap) across enumerated stop and fault points",
-   text="Runtime monitoring of stream ownership: every stream handed to the library (sources, Flatten's inner streams, Join's arguments, Merge's inputs) is an instrumented probe; at the moment the owning reducer returns / the returned stream's Close returns the probe must have been closed exactly once, and it must never see Next after Close, a second Close, or Next overlapping Close (Dekker-style atomics). Enumerated over every owner x input length x consumer stop point x fault position, with perturbed timing for goroutine-backed owners under the race detector.",
+   text="Runtime monitoring of stream ownership: every stream handed to the library (sources, Flatten's inner streams, Join's arguments, Merge's inputs) is an instrumented probe; at the moment the owning reducer returns / the returned stream's Close returns the probe must have been closed exactly once, and it must never see Next after Close, a second Close, or Next overlapping Close (Dekker-style atomics). Enumerated over every owner x input length x consumer stop point x fault position x context state at construction / at the call (live, already cancelled, already expired), with perturbed timing for goroutine-backed owners under the race detector.",
    note="Trusted: the probe's atomics. Counters are read at the return of the owning call with no grace period."),
  "C10": dict(level="exploration", tech="offline history checker over unique-value event logs (integrity, per-sender FIFO, no-loss-before-close, stickiness) + goroutine-dump quiescence verdict for 'no stuck call'; race detector",
    text="Runtime monitoring of stream.Pipe under stress: thousands of short concurrent histories (1..8 senders mixing Send/TrySend, buffer sizes 0/1/2/8, Close(nil)/Close(err), receiver reading to the end or closing early, expiring per-call contexts, seeded perturbation) are logged with a logical clock at the client boundary and checked offline: only sent values received, at most once, per-sender FIFO, every value acknowledged before Close was called is received before End/err, End/err sticks. Blocked calls are decided by a goroutine-dump quiescence test, never by a wall-clock deadline. Built with -race.",
    note="Trusted: the logical clock (atomic counter) and the checker; schedules explored by repetition, the evidence counts distinct interleaving signatures and how often data and close were both ready."),
  "C11": dict(level="exploration", tech="offline history checker (conservation, batch bounds, age lower bound from arrival/receipt timestamps, error ordering) + quiescence verdict for Close; race detector",
-   text="Runtime monitoring of stream.Batch/BatchFunc: instrumented sources stamp each item just before handing it over and the consumer stamps after Next returns, so the measured age of an under-filled batch bounds its true age from above and 'age >= maxWait' is sound under any load. Checked per run: concatenation == source prefix, no empty batch, size <= batchSize (BatchFunc: full() not already true on a proper prefix), under-filled-before-end only after maxWait, error after preceding items, Close returns (quiescence verdict), no surviving goroutine, source closed once. Arrival patterns x consumer patterns x maxWait x batchSize x Close moments, under -race.",
+   text="Runtime monitoring of stream.Batch/BatchFunc: instrumented sources stamp each item just before handing it over and the consumer stamps after Next returns, so the measured age of an under-filled batch bounds its true age from above and 'age >= maxWait' is sound under any load. Checked per run: concatenation == source prefix, no empty batch, size <= batchSize (BatchFunc: full() not already true on a proper prefix), under-filled-before-end only after maxWait, error after preceding items, Close returns (quiescence verdict), no surviving goroutine, source closed once. Arrival patterns x consumer patterns x maxWait (1 ms .. 1 h and MaxInt64) x batchSize x source error values x Close moments, under -race.",
    note="Trusted: monotonic clock readings used only as lower bounds. 'Handed to a waiting consumer rather than held back' is decided in a bounded form (>= 1000 x maxWait and >= 10 s) or as inconclusive."),
  "C12": dict(level="exploration", tech="offline history checker over unique values (multiset, per-input order, termination) + goroutine-dump leak check; race detector",
-   text="Runtime monitoring of chans.Merge, chans.Replicate and stream.Merge with unique (input, seq) values: output multiset == union of inputs, each input's order preserved, the call finishes exactly when all inputs are closed and delivered (arity 0,1,2,3,4,7 so each code path of chans.Merge runs), stream.Merge ends only after all inputs, reports an input's own error, terminates with zero inputs, and after Close no goroutine of it survives even when inputs block (goroutine-dump parser). Under -race.",
+   text="Runtime monitoring of chans.Merge, chans.Replicate and stream.Merge with unique (input, seq) values: output multiset == union of inputs, each input's order preserved, the call finishes exactly when all inputs are closed and delivered (arity 0,1,2,3,4,7 so each code path of chans.Merge runs), stream.Merge ends only after all inputs, reports an input's own error, terminates with zero inputs, and after Close no goroutine of it survives even when inputs block (goroutine-dump parser); input error values incl. context.Canceled; consumer per-call context expiry followed by further reading. Under -race.",
    note="Trusted: checker; termination decided by quiescence verdict."),
  "C13": dict(level="exploration", tech="history checker over per-index invocation counts, concurrency gauge, context state at entry; race detector for the barrier clause",
-   text="Runtime monitoring of parallel.Do/DoContext/Map/MapContext: per-index invocation counters, a concurrency gauge with high-water mark, out[i] == f(in[i]), no invocation running or starting after the call returned, plain (unsynchronised) writes in f read by the caller after return under the race detector (barrier clause), returned error is one a call returned or the caller's ctx error, other in-flight calls see their ctx cancelled, at most parallelism-1 calls start with an already-cancelled ctx while the caller's ctx is live. Grid of n x parallelism x latency patterns x failing sets x caller-context states.",
+   text="Runtime monitoring of parallel.Do/DoContext/Map/MapContext: per-index invocation counters, a concurrency gauge with high-water mark, out[i] == f(in[i]), no invocation running or starting after the call returned, plain (unsynchronised) writes in f read by the caller after return under the race detector (barrier clause), returned error is one a call returned or the caller's ctx error, other in-flight calls see their ctx cancelled, at most parallelism-1 calls start with an already-cancelled ctx while the caller's ctx is live. Grid of n x parallelism x latency patterns x failing sets x caller-context states, plus n up to 70000 and GOMAXPROCS changed inside the process (and a second variant run with GOMAXPROCS=3).",
    note="Trusted: atomics of the probes. Schedules explored."),
  "C14": dict(level="exploration", tech="online monitor (in-flight bound at every source pull) + offline order/exactly-once/error checks + quiescence verdict; race detector",
-   text="Runtime monitoring of parallel.MapIterator/MapStream: outputs == map f of the source in order, exactly once; at every source pull the number of items taken minus consumer Next calls begun never exceeds bufferSize + parallelism + 1 (online); no deadlock (quiescence verdict); MapStream errors are ones the source or f returned (never a library-caused cancellation), never after a result beyond the failed item; Close at any moment returns with all workers stopped and the source closed once. Latency patterns force reordering up to the buffer limit. Under -race.",
+   text="Runtime monitoring of parallel.MapIterator/MapStream: outputs == map f of the source in order, exactly once; at every source pull the number of items taken minus consumer Next calls begun never exceeds bufferSize + parallelism + 1 (online); no deadlock (quiescence verdict); MapStream errors are ones the source or f returned (never a library-caused cancellation), never after a result beyond the failed item; Close at any moment returns with all workers stopped and the source closed once. Latency patterns force reordering up to the buffer limit; sources that block in Next or only produce after the consumer has received earlier results. Under -race.",
    note="Trusted: probes; the in-flight check uses an upper bound on yielded items so it can only under-report."),
  "C15": dict(level="exploration", tech="reference-model monitor: snapshot-or-panic automaton over a systematic (state x position x mid-iteration operation) enumeration",
    text="Runtime monitoring of Deque/Heap/PriorityQueue iterators: for every small container state (deque: every abstract (capacity, front, length) state with capacity <= 8 reached through the public API), every iterator position and every mid-iteration operation (pushes, pops incl. the one that empties, Set, Grow, Shrink, Update lower/higher/equal/new, Remove present/absent) the continued iteration is judged by a snapshot-or-panic automaton: yields must continue the snapshot, exhaustion only after the whole snapshot, and after an element was added or removed the next call must panic.",
    note="Trusted: the automaton (DESIGN.md C15): panic is accepted after any call to a mutating method; snapshot taken at Iterate() or at the first Next."),
  "C16": dict(level="exploration", tech="deterministic schedule controller (gated sync.Locker + pause point between unlock and select) with wake-up accounting; stress mode under the race detector",
-   text="Runtime monitoring of xsync.ContextCond with a controlled scheduler: each waiter is held exactly between releasing the lock and parking (pause-point hook / gated Locker) or confirmed parked through the goroutine dump; every combination of k <= 4 waiters, their stages, m <= 4 Signals / Broadcast / cancellations is executed and the wake-ups counted after quiescence (>= min(k,m) woken, Broadcast wakes all, nil => lock held, error => ctx.Err() without the lock). Plus an ungated stress mode under -race.",
+   text="Runtime monitoring of xsync.ContextCond with a controlled scheduler: each waiter is held exactly between releasing the lock and parking (pause-point hook / gated Locker) or confirmed parked through the goroutine dump; every combination of k <= 4 waiters, their stages, m <= 4 Signals / Broadcast / cancellations is executed and the wake-ups counted after quiescence (>= min(k,m) woken, Broadcast wakes all, nil => lock held, error => ctx.Err() without the lock). Plus scenarios after an earlier Broadcast, cause-carrying contexts, lock-less Broadcasts racing a waiter's entry into Wait, and an ungated stress mode under -race.",
    note="Known finding D11 (coalesced Signals) is listed in KNOWN_FINDINGS.txt with a narrow signature; any other shortfall is a violation."),
  "C17": dict(level="exploration", tech="offline history checker over run intervals vs trigger calls vs StopAndWait return (logical clock) with pause-point widening; race detector",
-   text="Runtime monitoring of xsync.Group: every run of every registered f logs start/end ticks, every trigger call logs a tick before invoking, StopAndWait logs its return tick. Checked: no run open at or starting after StopAndWait returned (including registrations and Do racing the stop), every trigger call followed by a complete run that began after it (checked while the group runs), runs of one f never overlap, periodic functions keep running (bounded restatement). The pause point between spawn's context check and wg.Add is widened on a seeded subset. Under -race.",
+   text="Runtime monitoring of xsync.Group: every run of every registered f logs start/end ticks, every trigger call logs a tick before invoking, StopAndWait logs its return tick. Checked: no run open at or starting after StopAndWait returned (including registrations and Do racing the stop), every trigger call followed by a complete run that began after it (checked while the group runs), runs of one f never overlap, periodic functions keep running (bounded restatement). Several concurrent stoppers; the pause point between spawn's context check and wg.Add is widened on a seeded subset. Under -race.",
    note="Trusted: logical clock. 'Keep being invoked' is decided as >= 3 runs within >= 10000 intervals."),
  "C18": dict(level="exploration", tech="linearizability checking of recorded Set/Value histories with porcupine + channel-closure rules; differential monitor xsync.Map vs sync.Map; race detector",
-   text="Runtime monitoring of Watchable (porcupine register model over short concurrent histories with unique values; a channel seen closed implies a later Set; at quiescence exactly the last channel is open; observers end on the final value; pause points widen Value's load/CAS window and Set's swap/close window), Future (one value to all earlier/later waiters, WaitContext gives up), Lazy (f once, same result to all) and xsync.Map (same random operation sequence on sync.Map, every method, absent and present keys, interface and non-interface value types, outcome = results or panic). Under -race.",
+   text="Runtime monitoring of Watchable (porcupine register model over short concurrent histories with unique values; a channel seen closed implies a later Set; at quiescence exactly the last channel is open; observers end on the final value; pause points widen Value's load/CAS window and Set's swap/close window), Future (one value to all earlier/later waiters, WaitContext gives up), Lazy (f once, same result to all; interface-typed results incl. nil, zero values, panicking f) and xsync.Map (same random operation sequence on sync.Map, every method, absent and present keys, interface and non-interface value types, outcome = results or panic). Under -race.",
    note="Trusted: porcupine v1.3.0, sync.Map as the reference. Checker timeout => inconclusive."),
  "C19": dict(level="exploration", tech="reference-function monitor over complete small scopes + random inputs; chi-square frequency monitor for sampling uniformity",
-   text="Runtime monitoring of the pure helpers: one reference (or post-condition oracle where the result is under-specified) per exported function of xslices, xsort, xmaps, xmath, xerrors and xrand, including documented aliasing and panics, over all slices on {0,1,2} up to length 6 x all index/count arguments plus random large inputs and extreme integers; xrand uniformity by Pearson chi-square over all subsets for every (n,k) with C(n,k) <= 35 at a false-alarm bound of about 1e-9 per table.",
+   text="Runtime monitoring of the pure helpers: one reference (or post-condition oracle where the result is under-specified) per exported function of xslices, xsort, xmaps, xmath, xerrors and xrand, including documented aliasing and panics, over all slices on {0,1,2} up to length 6 x all index/count arguments plus random large inputs, extreme integers and astronomic lengths/counts (zero-size element slices of length MaxInt, counts near MaxInt, sampling ranges up to MaxInt); xrand uniformity by Pearson chi-square over all subsets for every (n,k) with C(n,k) <= 35 at a false-alarm bound of about 1e-9 per table.",
    note="Trusted: reference functions. 'Equally likely' is decided only statistically: a bias of a few percent is below what 200000 draws can see."),
  "C20": dict(level="exploration", tech="timestamp-based history checker using only lower bounds (elapsed >= d, tick spacing >= d - jitter from the ticks' own timestamps, no tick stamped after Stop returned) with pause-point widening; race detector",
-   text="Runtime monitoring of xtime: SleepContext across d <= 0, no deadline, far deadline, deadline well inside d, cancelled before/mid-sleep (nil only after >= d; DeadlineTooSoonError exactly for the clearly-too-close deadlines and never for the clearly-far ones; ctx error otherwise); JitterTicker over a grid of (d, jitter) including jitter = 0, 1ns, d-1ns with Reset/Stop fired at seeded offsets around firing time on many concurrent tickers: no panic, consecutive tick timestamps >= d - jitter apart, no tick stamped after Stop returned. The pause point at the top of the timer callback makes 'fired but not delivered' coincide with Stop. Under -race.",
+   text="Runtime monitoring of xtime: SleepContext across d <= 0, no deadline, far deadline, deadline well inside d, cancelled before/mid-sleep, cause-carrying contexts, extreme d and deadlines (MaxInt64, zero time.Time) (nil only after >= d; DeadlineTooSoonError exactly for the clearly-too-close deadlines and never for the clearly-far ones; ctx error otherwise); JitterTicker over a grid of (d, jitter) including jitter = 0, 1ns, d-1ns with Reset/Stop fired at seeded offsets around firing time on many concurrent tickers: no panic, consecutive tick timestamps >= d - jitter apart, no tick stamped after Stop returned. The pause point at the top of the timer callback makes 'fired but not delivered' coincide with Stop. Under -race.",
    note="Trusted: monotonic clock; only lower bounds are judged, so machine load cannot cause a false alarm. Near-equal deadline cases are not generated (not decidable by observation)."),
 }
 
